@@ -36,7 +36,7 @@ import (
 // (goroutine dump on join time-out), table invariants at quiescence and goroutines
 // that survive Close. The race detector writes its reports to a log the parent reads.
 
-const c09Rule = "scenarios drawn by rapid: a packet loop over 10..60 protocol frames (every C08 frame class, host-tracking churn frames, router advertisements) through Parse -> Process* -> Notify on a reused buffer, a purge goroutine (VerifPurge with advancing time), 1..6 API actors each with 5..40 calls (FindIP, GetHosts + row-locked reads, IPAddrs, FindByMAC, FindMACEntry, PrintTable, Capture, Release, IsCaptured, DHCP offer get/set, ARP/ICMPv6/DHCP StartHunt/StopHunt, IsHunting, MinuteTicker), a notification consumer and (1 in 4) a concurrent Close; drawn pauses (yield / 20 us / 200 us / 2 ms) and GOMAXPROCS 1..16 perturb the schedule; each scenario runs 3 rounds on fresh sessions in a child process built with -race. oracles: race-detector reports (signature = the two innermost library functions), unrecovered runtime faults (concurrent map access), recovered panics, join time-out = deadlock (goroutine dump), C05 invariants once all goroutines have joined and the purge probes are out, no library goroutine left 10 s after Close. non-trivial = at least two actors and a purge overlapped the packet loop (measured in the child); distinct by hash of the scenario"
+const c09Rule = "scenarios drawn by rapid: a packet loop over 10..60 protocol frames (every C08 frame class, host-tracking churn frames, router advertisements) through Parse -> Process* -> Notify on a reused buffer, a purge goroutine (VerifPurge with advancing time), 1..6 API actors each with 5..40 calls (FindIP, GetHosts + row-locked reads, IPAddrs, FindByMAC, FindMACEntry, PrintTable, Capture, Release, IsCaptured, DHCP offer get/set, ARP/ICMPv6/DHCP StartHunt/StopHunt, IsHunting, MinuteTicker, the handlers' PrintTable, FindRouter, DNSFind/DNSExist), a notification consumer and (1 in 4) a concurrent Close; drawn pauses (yield / 20 us / 200 us / 2 ms) and GOMAXPROCS 1..16 perturb the schedule; each scenario runs 3 rounds on fresh sessions in a child process built with -race. oracles: race-detector reports (signature = the two innermost library functions), unrecovered runtime faults (concurrent map access), recovered panics, join time-out = deadlock (goroutine dump), C05 invariants once all goroutines have joined and the purge probes are out, no library goroutine left 10 s after Close. non-trivial = at least two actors and a purge overlapped the packet loop (measured in the child); distinct by hash of the scenario"
 
 type c09Frame struct {
 	B     drv.Hex `json:"b"`
@@ -75,7 +75,7 @@ type c09Result struct {
 }
 
 var c09CallKinds = []string{"findip", "findip", "gethosts", "gethosts", "ipaddrs", "findbymac", "findmac", "printtable", "capture", "release", "iscaptured", "offer-get", "offer-set",
-	"arp-start", "arp-stop", "arp-ishunting", "icmp6-start", "icmp6-stop", "dhcp-start", "dhcp-stop", "dhcp-tick", "arp-printtable", "dhcp-printtable", "icmp6-printtable"}
+	"arp-start", "arp-stop", "arp-ishunting", "icmp6-start", "icmp6-stop", "dhcp-start", "dhcp-stop", "dhcp-tick", "arp-printtable", "dhcp-printtable", "icmp6-printtable", "icmp6-findrouter", "dns-find", "dns-exist", "dns-printtable"}
 
 func c09Pause(p int) {
 	switch p {
@@ -192,6 +192,17 @@ func (e *c08Env) c09Call(w gen.World, c c09Call, now time.Time) {
 		e.dhcp.PrintTable()
 	case "icmp6-printtable":
 		e.icmp6.PrintTable()
+	case "icmp6-findrouter":
+		r := e.icmp6.FindRouter(c14Routers[c.I%2].lla)
+		c09Sink.add(len(r.Prefixes) + len(r.Addr.MAC))
+	case "dns-find":
+		c09Sink.add(len(e.dns.DNSFind([]string{"example.com", "host.local", "a.b.c"}[c.I%3]).Name))
+	case "dns-exist":
+		if e.dns.DNSExist(ip4) {
+			c09Sink.add(1)
+		}
+	case "dns-printtable":
+		e.dns.PrintDNSTable()
 	}
 }
 
@@ -249,17 +260,27 @@ func libraryGoroutines() (out []string) {
 
 var reFrameArgs = regexp.MustCompile(`\((\)|0x|\{|\.\.\.|[0-9?]).*$`)
 
-// topLibFunc returns the innermost library function of a stack given as text lines.
+// generic helpers (copying, formatting, option decoding, set primitives): a race is named by their caller
+var reHelper = regexp.MustCompile(`^fastlog\.|^Copy(MAC|IP|Bytes)$|\.FastLog$|\.String$|^toNotification$|\.unmarshal$|^newParseOptions$|^\(\*AddrList\)\.|\.func[0-9.]+$|^\(\*MACEntry\)\.(un)?link$|^\(\*MACTable\)\.|^\(\*Session\)\.(findIP|deleteHost|printHostTable|printMACTable)$`)
+
+// topLibFunc returns the innermost library function of a stack given as text lines that is not a generic helper.
 func topLibFunc(lines []string) string {
+	first := ""
 	for _, l := range lines {
 		l = strings.TrimSpace(l)
 		if strings.HasPrefix(l, "github.com/irai/packet") {
 			l = reFrameArgs.ReplaceAllString(l, "")
 			l = strings.TrimPrefix(l, "github.com/irai/packet")
-			return strings.TrimLeft(l, "/.")
+			l = strings.TrimLeft(l, "/.")
+			if first == "" {
+				first = l
+			}
+			if !reHelper.MatchString(l) {
+				return l
+			}
 		}
 	}
-	return ""
+	return first
 }
 
 func c09ChildRun(c c09Case) (res c09Result) {
